@@ -124,6 +124,9 @@ M = [
      'dump_dict["energies"] = self.energies[:-1]'),
     ("C14-state-dump-all-off-by-one", ["C14"], "renormalizer/utils/tdmps.py", 'self.job_name+"_mps_"+str(len(self.evolve_times)-1) + ".npz")',
      'self.job_name+"_mps_"+str(len(self.evolve_times)-2) + ".npz")'),
+    ("C09-environ-not-stored-for-dimension-one", ["C09"], "renormalizer/mps/lib.py",
+     "                        domain, mps_conj[siteidx])\n            self.write(domain, siteidx, itensor)",
+     "                        domain, mps_conj[siteidx])\n            if mps[siteidx].shape[0] != 1 or mps[siteidx].shape[-1] != 1 or (domain, siteidx) not in self._virtual_disk:\n                self.write(domain, siteidx, itensor)"),
     ("C15-simplify-sums-abs", ["C15"], "renormalizer/model/op.py", None, None),
     ("C18-svd-qn-block-order", ["C18", "C04"], "renormalizer/mps/svd_qn.py", None, None),
     ("C20-cover-drops-isolated", ["C20"], "renormalizer/lib/bipartite_matching/bipartite_matching.py", None, None),
